@@ -345,7 +345,7 @@ func (e *Env) State(id types.FileContractID) (rhp4.RevisionState, error) {
 	var rs rhp4.RevisionState
 	var unlock func()
 	var err error
-	for i := 0; i < 2000; i++ {
+	for i := 0; i < 30000; i++ { // up to ~3 s: a handler that has been told to stop releases the lock at once
 		rs, unlock, err = e.EC.LockV2Contract(id)
 		if err == nil {
 			break
